@@ -388,7 +388,7 @@ def load_known():
 def parse_kani_result_file(path):
     txt = open(path, errors="replace").read()
     checks = []
-    for m in re.finditer(r"Check (\d+): (\S+)\n\s*- Status: (\w+)\n\s*- Description: \"(.*)\"\n\s*- Location: (.*)\n", txt):
+    for m in re.finditer(r"Check (\d+): (.+)\n\s*- Status: (\w+)\n\s*- Description: \"(.*)\"\n\s*- Location: (.*)\n", txt):
         checks.append({"name": m.group(2), "status": m.group(3), "desc": m.group(4).strip('"'), "loc": m.group(5).strip()})
     status = None
     m = re.search(r"VERIFICATION:- (SUCCESSFUL|FAILED)", txt)
@@ -431,7 +431,11 @@ def kani_group(pkg, obs, flags, stage_dir, scratch, tier):
     rdir = os.path.join(tdir, "result_output_dir")
     build_failed = ("error: could not compile" in err) or ("error[E" in err and "Checking harness" not in out)
     if build_failed:
-        raise Undecided(f"kani build of {pkg} failed:\n" + "\n".join([l for l in err.split("\n") if l.startswith("error") or "-->" in l][:40]))
+        msgs = []
+        for blk in re.split(r"\n(?=error)", out + "\n" + err):
+            if blk.startswith("error"):
+                msgs.append(blk[:700])
+        raise Undecided(f"kani build of {pkg} failed:\n" + "\n".join(msgs[:12]))
     files = {}
     if os.path.isdir(rdir):
         for fn in os.listdir(rdir):
@@ -448,7 +452,8 @@ def kani_group(pkg, obs, flags, stage_dir, scratch, tier):
         o["covers"] = list(r["covers"])
         real_fail = [c for c in r["failed"] if "unwinding assertion" not in c["desc"]]
         exp = o.get("expect_fail")
-        if exp:
+        no_verdict = r["status"] != "SUCCESSFUL" and not r["failed"] and ("CBMC timed out" in r["tail"] or "CBMC failed" in r["tail"] or "out of memory" in r["tail"].lower())
+        if exp and not no_verdict:
             # harness is expected to fail exactly the listed checks (a panic the property demands)
             missing = [e for e in exp if not any(e in c["desc"] for c in real_fail)]
             real_fail = [c for c in real_fail if not any(e in c["desc"] for e in exp)]
